@@ -65,9 +65,11 @@ Section Cli.
   Definition new_reader (file : bytes) : res creader :=
     match read_header hdrdec default_maxh file with
     | Err e => Err e
-    | Ok (_, v, _, _) =>
+    | Ok (_, v, _, used) =>
       if v =? 1 then Ok (mkcr 1 zero_v2hdr)
       else if v =? 2 then
+        (* repaired (66c8f5b): the pragma must be exactly PragmaSize bytes *)
+        if negb (used =? 11) then Err EOther else
         match read_v2hdr (take 40 (drop 11 file)) with
         | Err e => Err e
         | Ok (h, _) => Ok (mkcr 2 h)
@@ -98,14 +100,16 @@ Section Cli.
         else if default_maxs <? len then Err ESectionTooLarge
         else
           match cid_from_reader r1 with
-          | CfrEof => Err EEof
+          | CfrEof => Err EUnexpectedEof    (* repaired (ea7bf8c): was CidFromReader's bare io.EOF *)
           | CfrErr _ => Err EOther
           | CfrOk n c p rest =>
             if len <? n then Err EOther          (* section length shorter than CID length *)
             else
               let bl := len - n in
               if full then
-                (* io.LimitReader(dr, blockLength): a short stream is hashed as it is *)
+                (* repaired (ea7bf8c): the io.LimitedReader must be drained, a short stream is
+                   io.ErrUnexpectedEOF (it used to be hashed as it was) *)
+                if blen rest <? bl then Err EUnexpectedEof else
                 let data := take bl rest in
                 match hash_matches hok c p data with
                 | None => Err EOracleMiss
@@ -124,7 +128,9 @@ Section Cli.
     let dv := data_view r file in
     match read_header hdrdec default_maxh dv with
     | Err e => Err e
-    | Ok (roots, _, _, used) =>
+    | Ok (roots, hv, _, used) =>
+      (* repaired (91b302e): a CARv2 whose payload header is not version 1 is refused *)
+      if (cr_ver r =? 2) && negb (hv =? 1) then Err EOther else
       match inspect_loop (S (length dv)) full dv used [] with
       | Err e => Err e
       | Ok (acc, endpos) =>
